@@ -46,11 +46,11 @@ func verifVecVals3(kind int, name string, n, pat int, withDeriv bool) *verifVecV
 			}
 			VerifAssume(v.x[i] != 0)
 			if withDeriv {
-				v.d[i] = VerifFinite64(name + ".d")
+				v.d[i] = verifDerivVal(kind, name+".d")
 			}
 		}
 		if v.st[i] == 3 && withDeriv {
-			v.d[i] = VerifFinite64(name + ".d")
+			v.d[i] = verifDerivVal(kind, name+".d")
 			VerifAssume(v.d[i] != 0)
 		}
 	}
@@ -476,4 +476,12 @@ func init() {
 	VerifRegister("verif_C03_vec", func(a []int) { verif_C03_vec(a[0], a[1], a[2], a[3], a[4], a[5], a[6], a[7]) })
 	VerifRegister("verif_C03_mat", func(a []int) { verif_C03_mat(a[0], a[1], a[2], a[3], a[4], a[5], a[6], a[7], a[8]) })
 	VerifRegister("verif_C03_ctor", func(a []int) { verif_C03_ctor(a[0], a[1], a[2]) })
+}
+
+// a derivative value that the element type of kind represents exactly
+func verifDerivVal(kind int, name string) float64 {
+	if verifIs32(kind) {
+		return float64(VerifFinite32(name))
+	}
+	return VerifFinite64(name)
 }
